@@ -247,6 +247,45 @@ fn fam_connect_dense(o: &mut Out, props: &str, seed0: u64, deadline: Instant) {
     }
 }
 
+/// the same planners in a world centred on the ORIGIN: coordinates of both signs and of very different magnitudes, where
+/// `a + (b - a) * 1.0 != b` and the like happen all the time (in the [0,10]^2 worlds the operands are within a factor of two
+/// of each other and most such differences are exact) -- bit-level twins of validated states, off-by-one-ulp end points
+fn fam_origin(o: &mut Out, props: &str, seed0: u64, deadline: Instant) {
+    let sp: Arc<SP> = Arc::new(RealVectorStateSpace::new(2, Some(vec![(-1.0, 1.0), (-1.0, 1.0)])).unwrap());
+    let boxes = vec![(-0.35, -0.25, -1.0, 0.4), (0.2, 0.3, -0.5, 1.0), (-0.05, 0.05, -0.1, 0.1)];
+    'outer: for ds in 0..8u64 {
+        for (pi, pl) in [Pl::Connect, Pl::Rrt, Pl::Star].into_iter().enumerate() {
+            for (qi, (step, radius)) in [(0.3, 0.5), (0.7, 0.4)].into_iter().enumerate() {
+                if Instant::now() > deadline { break 'outer; }
+                let seed = seed0.wrapping_mul(1000) + 60_000 + (ds * 3 + pi as u64) * 2 + qi as u64;
+                let w = Arc::new(World { boxes: boxes.clone(), log: Mutex::new(vec![]) });
+                let pdx = pd(&sp, (-0.8 + (ds % 4) as f64 * 0.05, -0.7 + (ds % 3) as f64 * 0.3), (0.8, 0.75 - (ds % 5) as f64 * 0.3), 0.1);
+                let mut inst = Inst::new(pl, step, radius, 0.1, seed);
+                inst.setup(pdx.clone(), w.clone());
+                if let Ok(path) = inst.solve(Duration::from_millis(300)) {
+                    check_path(o, props, &format!("around the origin {:?} step{} radius{}", pl, step, radius), seed, &sp, &w, &pdx, &path, Inst::limit(pl, step, radius));
+                }
+            }
+        }
+    }
+    // a step larger than the world: every extension reaches its target, the trees stay tiny, the roots have short decimal
+    // coordinates of small magnitude (0.15 has a finer last bit than any sample) -- many very short runs
+    'outer2: for ds in 0..120u64 {
+        for (pi, pl) in [Pl::Connect, Pl::Rrt, Pl::Star].into_iter().enumerate() {
+            if Instant::now() > deadline { break 'outer2; }
+            if pl != Pl::Connect && ds >= 20 { continue; }
+            let seed = seed0.wrapping_mul(1000) + 62_000 + ds * 3 + pi as u64;
+            let w = Arc::new(World { boxes: boxes.clone(), log: Mutex::new(vec![]) });
+            let pdx = pd(&sp, ([0.15, -0.15, 0.1, -0.07][(ds % 4) as usize], [0.3, -0.3, 0.45][(ds % 3) as usize]), (0.45, [0.3, -0.2, 0.7, -0.6, 0.15][(ds % 5) as usize]), 0.01);
+            let mut inst = Inst::new(pl, 2.5, 3.0, 0.05, seed);
+            inst.setup(pdx.clone(), w.clone());
+            if let Ok(path) = inst.solve(Duration::from_millis(200)) {
+                check_path(o, props, &format!("around the origin, long step {:?}", pl), seed, &sp, &w, &pdx, &path, Inst::limit(pl, 2.5, 3.0));
+            }
+        }
+    }
+}
+
 /// call histories: re-setup with another problem / stricter checker, repeated solve, PRM problem replacement
 fn fam_histories(o: &mut Out, props: &str, seed0: u64, deadline: Instant) {
     let sp = space();
@@ -838,6 +877,7 @@ fn main() {
             fam_paths(&mut o, &p, seed, deadline);
             fam_star_dense(&mut o, &p, seed, deadline + Duration::from_secs_f64(budget / 3.0));
             fam_connect_dense(&mut o, &p, seed, deadline + Duration::from_secs_f64(budget / 2.5));
+            fam_origin(&mut o, &p, seed, deadline + Duration::from_secs_f64(budget / 2.0));
             let n = PANICS.load(std::sync::atomic::Ordering::SeqCst);
             if n > 0 && (prop == "C08" || prop == "C15" || prop == "C02") { o.report("panic", seed, format!("{} planner call(s) on well-formed inputs panicked", n)); }
         }
